@@ -84,6 +84,7 @@ type Exec struct {
 	// inCrashSettle: the op's post-state is being reconstructed after a crash
 	inCrashSettle bool
 	lastWant      string
+	lastFailedOp  int // index of the last op that failed as it had to (-1: none)
 	// OpHitCapacity: the current op failed with a legitimate backend capacity error
 	OpHitCapacity bool
 	// RecordObs: keep a backend-independent log of what each operation returned (E-DIFF)
@@ -105,7 +106,7 @@ func InstallIDSeam(seed uint64) *rng.R {
 }
 
 func NewExec(be Backend, dir string, idSeed uint64, opt ExecOpt) (*Exec, error) {
-	e := &Exec{Be: be, Ctl: wrap.NewCtl(), M: model.NewDB(), Dir: dir, Opt: opt, Stats: NewStats(), usedIDs: map[string]struct{}{}, exports: map[string]map[string]model.Doc{}}
+	e := &Exec{Be: be, Ctl: wrap.NewCtl(), M: model.NewDB(), Dir: dir, Opt: opt, Stats: NewStats(), usedIDs: map[string]struct{}{}, exports: map[string]map[string]model.Doc{}, lastFailedOp: -1}
 	e.idRng = InstallIDSeam(idSeed)
 	if err := e.open(); err != nil {
 		return nil, err
@@ -167,6 +168,18 @@ func (e *Exec) fail(props []string, rule, msg string, feats map[string]string) {
 		if e.cur.Fault > 0 {
 			feats["fault"] = "1"
 		}
+	}
+	if e.lastFailedOp >= 0 && e.opIdx > e.lastFailedOp && e.opIdx <= e.lastFailedOp+2 && (strings.HasSuffix(rule, "error") || rule == "C20/panic") {
+		// "later operations on the same handle proceed normally": an operation has just
+		// failed (as it had to), and now a valid one fails or cannot be read back
+		has := false
+		for _, p := range props {
+			has = has || p == "C04"
+		}
+		if !has {
+			props = append(append([]string{}, props...), "C04")
+		}
+		feats["afterFailedOp"] = "1"
 	}
 	e.V = &Violation{Props: props, Rule: rule, Msg: msg, OpIdx: e.opIdx, OpK: k, Features: feats}
 }
@@ -419,6 +432,16 @@ func (e *Exec) judge(err error, want string, okProps []string, what string) outc
 			e.fail(append([]string{"C04"}, okProps...), "invalid-accepted", fmt.Sprintf("%s: invalid operation returned success", what), nil)
 			return outBad
 		}
+		e.lastFailedOp = e.opIdx
+		return outFailed
+	case "maybe":
+		// the input is at the edge of what the record encoding can hold: the
+		// operation may be refused (then without effect) or carried out in full
+		if err == nil {
+			return outOK
+		}
+		e.probe("unencodable-value-refused")
+		e.lastFailedOp = e.opIdx
 		return outFailed
 	default:
 		if err == nil {
@@ -429,6 +452,7 @@ func (e *Exec) judge(err error, want string, okProps []string, what string) outc
 			e.fail(sentinelProps[want], "wrong-sentinel", fmt.Sprintf("%s: expected %s, got %v", what, want, err), map[string]string{"want": want, "err": firstLine(err.Error())})
 			return outBad
 		}
+		e.lastFailedOp = e.opIdx
 		return outFailed
 	}
 }
@@ -1336,7 +1360,7 @@ func (e *Exec) settleCrash(op *Op, apply func()) {
 		e.fail([]string{"C05"}, "C05/reopen-error", fmt.Sprintf("reopen after crash failed: %v", err), nil)
 		return
 	}
-	if e.lastWant != "" {
+	if e.lastWant != "" && e.lastWant != "maybe" {
 		// the operation was going to fail anyway: its post-state is its pre-state
 		apply = func() {}
 	}
